@@ -45,6 +45,8 @@ def run_replay(script_path, timeout=600):
     except subprocess.TimeoutExpired:
         return "error", "replay timed out"
     out = (p.stdout + p.stderr)[-4000:]
+    if p.returncode == 1 and "Traceback (most recent call last)" in p.stderr and "REPRODUCED" not in p.stdout:
+        return "error", out        # the replay script itself crashed: never a reproduction
     if p.returncode == 1:
         return "reproduced", out
     if p.returncode == 0:
